@@ -190,7 +190,8 @@ func witnessIP(w map[int]bool, n int) string {
 // deferred wrapper, the lowering, the suffix dispatch and the family decoder,
 // with the library scanners and netip given their exact meaning.  The result
 // must be err == nil and the address a (an IPv4-mapped a comes back as IPv4).
-func c04RoundTripExact(c *Ctx) bool {
+func c04RoundTripExact(c *Ctx) (okExact bool) {
+	defer recoverUnsupported(c, &okExact, "c04RoundTripExact")
 	const rule = "C04.roundtrip-exact"
 	enc := c.fn("netutil", "IPToReversedAddr")
 	dec := c.fn("netutil", "IPFromReversedAddr")
@@ -368,10 +369,15 @@ func c04RoundTripExact(c *Ctx) bool {
 //	                 or 32 hex-digit labels + ".ip6.arpa"
 //
 // and the returned address the decoded one.
-func c04AcceptedExact(c *Ctx) bool {
+func c04AcceptedExact(c *Ctx) (okExact bool) {
+	defer recoverUnsupported(c, &okExact, "c04AcceptedExact")
 	const rule = "C04.accepted-exact"
 	f := c.fn("netutil", "IPFromReversedAddr")
 	if f == nil || len(f.Params) != 1 {
+		return false
+	}
+	if th := lengthThresholds(f, 80, "ValidateDomainName"); len(th) > 0 {
+		c.L.Notef("%s treats long inputs differently (%s): the lengths evaluated do not cover that; structural rules used instead", "IPFromReversedAddr", th[0])
 		return false
 	}
 	v4suf, v6suf := ".in-addr.arpa", ".ip6.arpa"
